@@ -1347,3 +1347,89 @@ Proof.
   pose proof (wb_iterates _ _ _ H3) as H4.
   now rewrite filter_chain_snd, map_chain_snd, slice_chain_snd in H4.
 Qed.
+
+(* ------------------------------------------------------------------ Tuple of distinct objects *)
+Definition tup_chain (items : list (nat * val)) : list (cur * val) :=
+  map (fun p => (CObj (fst p), snd p)) items.
+
+Lemma tup_next_ok (items : list (nat * val)) : NoDup (map fst items) -> forall i id v, nth_error items i = Some (id, v) ->
+  tup_next items id = option_map (fun p => CObj (fst p)) (nth_error items (S i)).
+Proof.
+  induction items as [|[id0 v0] rest IH]; intros Hnd i id v E; [destruct i; discriminate|].
+  inversion Hnd as [|? ? Hnotin Hnd']; subst. cbn [tup_next]. destruct i as [|i]; simpl in E.
+  - inversion E; subst. rewrite Nat.eqb_refl. destruct rest as [|[id' v'] r]; reflexivity.
+  - assert (In id (map fst rest)) as Hin.
+    { apply nth_error_In in E. change id with (fst (id, v)). now apply in_map. }
+    destruct (Nat.eqb_spec id0 id) as [->|Hne]; [contradiction|].
+    now rewrite (IH Hnd' i id v E).
+Qed.
+
+Lemma tup_prev_from_ok (items : list (nat * val)) : NoDup (map fst items) -> forall prev i id v, nth_error items i = Some (id, v) ->
+  tup_prev_from prev items id = Some (CObj (nth i (prev :: map fst items) 0%nat)).
+Proof.
+  induction items as [|[id0 v0] rest IH]; intros Hnd prev i id v E; [destruct i; discriminate|].
+  inversion Hnd as [|? ? Hnotin Hnd']; subst. cbn [tup_prev_from]. destruct i as [|i]; simpl in E.
+  - inversion E; subst. now rewrite Nat.eqb_refl.
+  - assert (In id (map fst rest)) as Hin.
+    { apply nth_error_In in E. change id with (fst (id, v)). now apply in_map. }
+    destruct (Nat.eqb_spec id0 id) as [->|Hne]; [contradiction|].
+    rewrite (IH Hnd' id0 i id v E). reflexivity.
+Qed.
+
+Lemma tup_find_ok (items : list (nat * val)) : NoDup (map fst items) -> forall i id v, nth_error items i = Some (id, v) ->
+  find (fun p => Nat.eqb (fst p) id) items = Some (id, v).
+Proof.
+  induction items as [|[id0 v0] rest IH]; intros Hnd i id v E; [destruct i; discriminate|].
+  inversion Hnd as [|? ? Hnotin Hnd']; subst. cbn [find fst]. destruct i as [|i]; simpl in E.
+  - inversion E; subst. now rewrite Nat.eqb_refl.
+  - assert (In id (map fst rest)) as Hin.
+    { apply nth_error_In in E. change id with (fst (id, v)). now apply in_map. }
+    destruct (Nat.eqb_spec id0 id) as [->|Hne]; [contradiction|]. now apply (IH Hnd' i).
+Qed.
+
+Lemma tup_chain_nth items i c v : nth_error (tup_chain items) i = Some (c, v) ->
+  exists id, c = CObj id /\ nth_error items i = Some (id, v).
+Proof.
+  unfold tup_chain. rewrite nth_error_map. destruct (nth_error items i) as [[id v']|]; simpl; intros H; inversion H.
+  eauto.
+Qed.
+
+Lemma tup_chain_at items i : cur_at (tup_chain items) i = option_map (fun p => CObj (fst p)) (nth_error items i).
+Proof. unfold cur_at, tup_chain. rewrite nth_error_map. now destruct (nth_error items i). Qed.
+
+Theorem wb_tuple f (items : list (nat * val)) : NoDup (map fst items) -> wb f (ITuple items) (tup_chain items).
+Proof.
+  intros Hnd. constructor.
+  - cbn [it_start tup_start]. rewrite tup_chain_at. destruct items as [|[id v] r]; reflexivity.
+  - cbn [it_start tup_start tuple_last_guard repaired]. unfold tup_chain at 2. rewrite map_length.
+    destruct (rev items) as [|[id v] r] eqn:Er.
+    + assert (items = []) as -> by (apply (f_equal (@rev _)) in Er; now rewrite rev_involutive in Er). reflexivity.
+    + assert (items = rev r ++ [(id, v)]) as Hi.
+      { apply (f_equal (@rev _)) in Er. rewrite rev_involutive in Er. exact Er. }
+      rewrite Hi at 2. rewrite app_length, Nat.add_1_r. cbn [length cur_before]. rewrite tup_chain_at.
+      rewrite Hi. rewrite nth_error_app2 by lia. now rewrite Nat.sub_diag.
+  - intros i c v E. apply tup_chain_nth in E as (id & -> & E). cbn [cur_val].
+    now rewrite (tup_find_ok items Hnd i id v E).
+  - intros i c v E. apply tup_chain_nth in E as (id & -> & E). cbn [it_step].
+    now rewrite (tup_next_ok items Hnd i id v E), tup_chain_at.
+  - intros i c v E. apply tup_chain_nth in E as (id & -> & E). cbn [it_step]. f_equal.
+    destruct items as [|[id0 v0] rest]; [destruct i; discriminate|].
+    inversion Hnd as [|? ? Hnotin Hnd']; subst. cbn [tup_prev]. destruct i as [|i]; simpl in E.
+    + inversion E; subst. now rewrite Nat.eqb_refl.
+    + assert (In id (map fst rest)) as Hin.
+      { apply nth_error_In in E. change id with (fst (id, v)). now apply in_map. }
+      destruct (Nat.eqb_spec id0 id) as [->|Hne]; [contradiction|].
+      rewrite (tup_prev_from_ok rest Hnd' id0 i id v E). cbn [cur_before]. rewrite tup_chain_at.
+      destruct i as [|j]; [reflexivity|]. cbn [nth nth_error].
+      assert (j < length rest)%nat by (assert (S j < length rest)%nat by (apply nth_error_Some; congruence); lia).
+      destruct (nth_error rest j) as [[idj vj]|] eqn:Ej; [|apply nth_error_None in Ej; lia].
+      cbn [option_map fst]. do 2 f_equal.
+      change idj with (fst (idj, vj)). apply nth_error_nth. now rewrite nth_error_map, Ej.
+Qed.
+
+Lemma tuple_summary f (items : list (nat * val)) : NoDup (map fst items) ->
+  iterates f (ITuple items) (map snd items) /\ lg (ITuple items) (map snd items).
+Proof.
+  intros Hnd. split; [|apply lg_tuple]. pose proof (wb_iterates _ _ _ (wb_tuple f items Hnd)) as H.
+  unfold tup_chain in H. rewrite map_map in H. exact H.
+Qed.
